@@ -281,6 +281,10 @@ def run(ctx: common.Ctx):
         "closed-form reference: scipy.linalg.expm / dense linear algebra on the metric described by the spec",
         "ODE reference: scipy DOP853, rtol = atol = 1e-12, on the system's own dh2_dmom / dh2_dpos",
     ]
+    from . import integ_corr
+    import sys
+
+    integ_corr.replay_corpus(ctx, sys.modules[__name__])
     correspondence(ctx)
     direct_oracles(ctx)
 
@@ -299,6 +303,26 @@ def replay(ctx, obj):  # noqa: ARG001
         return True
 
 
-LEVEL_TEXT = "PLACEHOLDER (rewritten by the Lean-side author): direct oracles on the real flows, see module docstring."
-LEVEL_NOTE = "PLACEHOLDER (rewritten by the Lean-side author)."
-TECHNIQUE = "PLACEHOLDER: Lean 4 theorems + direct oracles (group law, inverse, energy, closed form, ODE, flow-derivative blocks)"
+LEVEL_TEXT = (
+    'Lean 4 proof over an arbitrary field, every dimension and every time (positive, negative, arbitrarily long): h1_flow '
+    'leaves the position and shifts the momentum by -t grad h1(q) (kick_pos, kick_mom, kick_add, kick_neg, kick_hamilton); '
+    'Euclidean h2_flow: group law, inverse by negative time, conservation of any function of the momentum, affine-in-time '
+    'with the Hamiltonian vector field as slope (drift_add, drift_neg, drift_h2_conserved, drift_hamilton) and '
+    'dh2_flow_dmom = (t M^-1, I) is the exact momentum increment map (drift_dmom); Gaussian-split h2_flow: group law given '
+    "angle addition, inverse given cos^2+sin^2=1 and parity, conservation of h2 = q.q/2 + p.M^-1 p/2, Hamilton's equations "
+    '(substituting the derivatives of cos/sin gives exactly (M^-1 p, -q) at the flowed point), and dh2_flow_dmom equals the '
+    'exact Jacobian blocks (harmonic_add, harmonic_neg, harmonic_h2_conserved, harmonic_hamilton, harmonic_dmom). Tie: '
+    'exact-rational model vs real h1_flow / h2_flow / dh2_flow_dmom of Euclidean, Gaussian-split and (Gaussian) constrained '
+    'systems with implicit identity, implicit scaled identity, diagonal and dense metrics, times up to |t| = 40; the model '
+    "receives the implementation's own eigenvectors, frequencies and cos/sin values, which are checked against their "
+    'defining equations. Direct oracles on the real code: group law, inverse, h2 conservation, closed form via expm, ODE '
+    'reference, linearity and finite differences of the flow in the momentum vs dh2_flow_dmom; any exception is a violation.'
+)
+LEVEL_NOTE = (
+    'Trusted: Lean kernel, axioms {propext, Classical.choice, Quot.sound}; algebraic facts about cos/sin enter as hypotheses '
+    '(true for the real functions; libm accuracy is outside the theorems and covered by the 1e-9 comparison); d/dt cos(wt) = '
+    '-w sin(wt), d/dt sin(wt) = w cos(wt) and linearity of differentiation for harmonic_hamilton; eigendecomposition accuracy '
+    'of numpy.linalg.eigh (defining equations checked to 1e-11). dt = 0 is excluded for dh2_flow_dmom (zero scalar multiples '
+    'of matrices are rejected by mici.matrices; only reachable with step_size = 0).'
+)
+TECHNIQUE = 'Lean 4 theorems (field/module algebra, orthogonal change of basis) + exact-rational model/implementation correspondence + group-law / conservation / finite-difference oracles'
